@@ -172,9 +172,15 @@ fn one_run(seed: u64, run: u64, exhaustive_budgets: bool) -> RunResult {
         opt.max_depth = 3;
     }
     let mut wl = rng.fork();
-    let session = gen_g01_session(&mut wl, &opt);
-    let mut forms: Vec<String> = session.forms.iter().map(|f| f.text()).collect();
-    forms.push(session.dump.text());
+    // a quarter of the programs come from the continuation generator
+    let forms: Vec<String> = if run % 4 == 3 {
+        crate::gen::g05::session(&mut wl).forms.iter().map(|f| f.text()).collect()
+    } else {
+        let session = gen_g01_session(&mut wl, &opt);
+        let mut forms: Vec<String> = session.forms.iter().map(|f| f.text()).collect();
+        forms.push(session.dump.text());
+        forms
+    };
     let mut case = Case::new(forms);
     case.knobs = knobs;
     case.sched_seed = rng.next_u64();
@@ -288,7 +294,7 @@ pub fn run(tier: Tier, seed: u64, ev: &mut Evidence) -> Vec<Violation> {
         Tier::Quick => (160u64, 2500u64),
         Tier::Thorough => (3000u64, 60_000u64),
     };
-    ev.rule = "G01 sessions (+ final dump of all data globals) run uninterrupted and sliced in twin VMs; \
+    ev.rule = "G01 sessions (+ final dump of all data globals) and G05 continuation sessions run uninterrupted and sliced in twin VMs; \
                exhaustive part: every constant budget 1..64 for each short program; sampled part: random budgets 1..10^4, \
                random small budgets, adversarial cuts before/after CALL/TCALL/VARARG/ENTER/RET/CLOSURE; modes pure (collections \
                suppressed in both twins) and composed (production collector). distinct = (session, budget plan) hash; \
@@ -331,7 +337,7 @@ pub fn run(tier: Tier, seed: u64, ev: &mut Evidence) -> Vec<Violation> {
     ctx.sort();
     ev.extra.insert("cut_contexts_prev_next_opcode".into(), json!(ctx));
     ev.extra.insert("constant_budgets_enumerated".into(), json!("1..64 for each of the first short programs"));
-    ev.assumptions.push("G01 programs only; continuations (G05) are added by the C05 workload".into());
+    ev.assumptions.push("three quarters of the programs are G01 sessions, one quarter G05 continuation sessions".into());
     violations
 }
 
